@@ -104,3 +104,18 @@ Definition prologue_fetches (reffetch : bool) (root0 mapped : node) (pt : plat_t
     | PTList => [mapped]
     | PTImage cfgblob ok => if ok then [mapped; cfgblob] else [mapped]
     end.
+
+(* platform.SelectManifest as a whole: what it sees of the (mapped) root -- a manifest list with its
+   entries, an image manifest with its config (has the image-config media type? the platform decoded
+   from the config blob), or anything else -- and what it answers *)
+Inductive pview :=
+| PVList (entries : list (node * option plat))
+| PVImage (cfg_type_ok : bool) (cfg_platform : option plat)
+| PVOther.
+
+Definition select_target (r : node) (v : pview) (want : plat) : option node :=
+  match v with
+  | PVList es => select_manifest es want
+  | PVImage ok p => if ok && plat_match p want then Some r else None
+  | PVOther => None
+  end.
